@@ -8,9 +8,9 @@ def _c18_variants(tier):
 
 reg("C18",
     level="model_checking",
-    technique="explicit-state BFS over the real pdu_ring_buffer<Size, read_buffer, Layout> working on an exact-size heap block under ASan; reference FIFO with byte-exact PDU images and an independent re-implementation of the documented placement policy",
-    rule="state = byte image of the ring object + its storage + reference FIFO; transition = one real alloc_front / alloc_front+k*pop_end+fill+push_front / pop_end followed by next_end+more_than_one; classes = (operation, ring shape, outcome) kinds",
-    bound="Size in {12,16,24,31,61} x {default_pdu_layout, nrf_details::encrypted_pdu_layout}; block sizes header+{1,2,3,5}, Size/2-1..Size/2+1, Size-3..Size+1; payload whole block / 1 / whole block-1; 0..2 pops between allocation and commit. quick: Size 12,16 to the fixpoint (all reachable states), others to depth 10; thorough: depth 14",
+    technique="explicit-state BFS over the real pdu_ring_buffer<Size, read_buffer, Layout> working on an exact-size heap block under ASan; reference FIFO with byte-exact PDU images and an independent re-implementation of the documented placement policy, asked for every block size in every state; second unit: the real ll_data_pdu_buffer<61,61> with max_rx_size raised (does the empty-ring refusal reach the ring's user?)",
+    rule="state = byte image of the ring object + its storage + reference FIFO; transition = one real call sequence: sweep alloc_front(n) for all n / alloc_front + 0..2 pop_end + fill + push_front / pop_end, each followed by next_end + more_than_one and (scribble passes) by the legal environment action 'allocate the largest block, write 0x00 / 0xff all over it, do not commit' which keeps dead bytes canonical; classes = (operation, ring shape, outcome) kinds",
+    bound="Size in {12,16,24,31,61} x {default_pdu_layout, nrf_details::encrypted_pdu_layout}. Size 12,16: all reachable states (fixpoint) with 11 block sizes (header+{1,2,3,5}, Size/2-1..Size/2+1, Size-3..Size+1), payload whole block / 1 / whole block-1, 0..2 pops between allocation and commit, stale bytes 0x00 / 0xff (Size 12 also raw). Size 24,31,61: that alphabet to depth 3 (thorough 5, Size 61: 4) and a reduced alphabet (7 state changing events) to depth 10 (thorough 14; raw stale bytes 8 / 12). rx_stall unit: max_rx_size in {29,30,31,32,40,ReceiveSize-overhead}, payloads {1,5,27,max}, depth 9 (thorough 12)",
     units=[dict(src="harness/C18_pdu_ring.cpp", asan=True, flags=["-I/verif/harness/C18_stub"], variants=_c18_variants),
            dict(src="harness/C18_rx_stall.cpp", asan=True, flags=["-I/verif/harness/C18_stub"],
                 variants=[dict(name="default", defs=[]), dict(name="nrf", defs=["C18_NRF=1"])])],
